@@ -864,12 +864,10 @@ where
             non_leaky + slack(next_symbol, self.model.quantizer.min_symbol_inclusive)
         };
 
-        let probability = unsafe {
-            // SAFETY: probabilities of
-            right_sided_cumulative
-                .wrapping_sub(&self.left_sided_cumulative)
-                .into_nonzero_unchecked()
-        };
+        let probability = right_sided_cumulative
+            .wrapping_sub(&self.left_sided_cumulative)
+            .into_nonzero()
+            .expect("Invalid underlying continuous probability distribution.");
 
         let left_sided_cumulative = self.left_sided_cumulative;
         self.left_sided_cumulative = right_sided_cumulative;
